@@ -170,6 +170,8 @@ func scenariosFor(prop string) []scn {
 		both(flowParams{Sources: 1, Records: 2, Batch: 1, Dests: 1, AckMenu: []string{"ok", "err"}, ReadMenu: []string{"ok", "err"}, Ctl: []string{"stop", "wait", "start", "stopwait"}, Retries: 1}, 2, 3)
 		both(flowParams{Sources: 1, Records: 2, Batch: 1, Dests: 1, AckMenu: []string{"ok", "err"}, Ctl: []string{"stopwait", "start", "stopwait"}, Retries: 2}, 2, 3)
 		both(flowParams{Sources: 1, Records: 1, Batch: 1, Dests: 2, AckMenu: onlyOK, GateDestOpen: true, Ctl: []string{"stop", "start", "stopwait"}, Retries: 1}, 2, 3)
+		// the store refuses a status write (e.g. the write of "running" at the end of Start)
+		both(flowParams{Sources: 1, Records: 1, Batch: 1, Dests: 1, AckMenu: onlyOK, Faults: true, Ctl: []string{"stopwait", "start", "stopwait"}}, 2, 3)
 		// the first Start cannot build its nodes (a plugin cannot be dispensed): nothing may stay reserved, the next Start works
 		both(flowParams{Sources: 1, Records: 1, Batch: 1, Dests: 1, AckMenu: onlyOK, Procs: []procParam{{ID: "pp"}}, FailDispense: []string{"d0"}, Ctl: []string{"start", "stopwait"}}, 1, 2)
 		both(flowParams{Sources: 1, Records: 1, Batch: 1, Dests: 1, AckMenu: onlyOK, Procs: []procParam{{ID: "pp"}}, FailDispense: []string{"s0"}, Ctl: []string{"start", "stopwait"}}, 1, 2)
